@@ -248,6 +248,7 @@ func (pConn *PFCPConn) doShutdown() {
 	// Cleanup all sessions in this conn
 	for _, sess := range pConn.store.GetAllSessions() {
 		pConn.upf.SendMsgToUPF(upfMsgTypeDel, sess.PacketForwardingRules, PacketForwardingRules{})
+		releaseAllocatedFTEIDs(pConn.upf.fteidGenerator, sess.pdrs)
 		pConn.RemoveSession(sess)
 	}
 
